@@ -62,9 +62,14 @@ class Handler(object):
     kind = self._do(s)
     if kind == 'empty':
       return ''
+    if kind == 'missing':
+      return None         # a result struct with no field set: the caller must get MISSING_RESULT
     return 'r|%s|n%d' % (s, self.req.nonce)
 
   def hi(self, s):
+    return self.echo(s)
+
+  def relay(self, s):
     return self.echo(s)
 
   def poke(self, s):
@@ -126,6 +131,8 @@ class BaseServer(object):
     iprot = TBinaryProtocol(TMemoryBuffer(payload))
     name, mtype, seqid = iprot.readMessageBegin()
     cls = getattr(self.module, name + '_args', None)
+    if cls is None and hasattr(self.module, 'SimService'):
+      cls = getattr(self.module.SimService, name + '_args', None)     # inherited method
     if cls is None:
       return name, None, seqid, mtype
     a = cls()
